@@ -236,8 +236,53 @@ impl<'a> Driver<'a> {
         Ok(())
     }
 
-    /// P6: everything between `from` and the end of `it` (view-relative) is determined by the view
+    /// Continuations used to cross-check a verdict of the reference model against the code itself: nothing,
+    /// every single byte (ASCII and a few multi-byte characters for str definitions), the corpus fragments.
+    fn continuations(&self) -> Vec<Vec<u8>> {
+        let mut v: Vec<Vec<u8>> = vec![Vec::new()];
+        if self.is_str {
+            for b in 0u8..128 { v.push(vec![b]); }
+            for m in MULTI { v.push(m.as_bytes().to_vec()); }
+        } else {
+            for b in 0u8..=255 { v.push(vec![b]); }
+        }
+        for f in self.def.frags {
+            if !self.is_str || std::str::from_utf8(f).is_ok() { v.push(f.to_vec()); }
+        }
+        v
+    }
+
+    /// One-shot lexing (ordinary lexer, same generated code) of `view ++ cont`.
+    fn one_shot_extended(&mut self, view: &[u8], cont: &[u8]) -> Vec<Item> {
+        let mut s = view.to_vec();
+        s.extend_from_slice(cont);
+        let out = self.def.lex(&s, false, 0, s.len() + 2);
+        self.stats.steps += out.calls as u64;
+        out.items
+    }
+
+    /// P6: everything between `from` and the end of `it` (view-relative) is determined by the view.
+    /// A verdict of the reference model is reported only if the code itself confirms it: there must be a
+    /// continuation of the buffer whose one-shot lexing does not contain the committed item. Otherwise the model
+    /// and the code disagree about the language (counted, not reported: that is not C07's business).
     fn check_p6(&mut self, view: &[u8], from: usize, it: &Item) -> Result<(), Violation> {
+        match self.check_p6_model(view, from, it) {
+            Ok(()) => Ok(()),
+            Err(mut v) => {
+                for c in self.continuations() {
+                    let items = self.one_shot_extended(view, &c);
+                    if !items.iter().any(|x| x == it) {
+                        v.what.push_str(&format!(" [confirmed by the code itself: one-shot lexing of the buffer followed by {} gives {}]", show_bytes(&c), fmt_items(&items)));
+                        return Err(v);
+                    }
+                }
+                self.stats.hit("p6_model_verdict_not_confirmed_by_code");
+                Ok(())
+            }
+        }
+    }
+
+    fn check_p6_model(&mut self, view: &[u8], from: usize, it: &Item) -> Result<(), Violation> {
         if !self.ref_ok {
             return Ok(());
         }
@@ -323,9 +368,25 @@ impl<'a> Driver<'a> {
                     }
                 }
             }
+            // cross-check the model against the code: the item the model calls determined must come out of one-shot
+            // lexing of the buffer followed by each of the sample continuations; if one of them gives something else
+            // at that position, model and code disagree about the language and nothing is reported
+            let (want_ok, want_end) = match &d {
+                Det::Match { end, pat } => (self.rf.outcome(*pat, *end) == Outcome::Emit, pos + end),
+                Det::Error { end } => (false, pos + end),
+                Det::Undetermined => unreachable!(),
+            };
+            for c in self.continuations() {
+                let items = self.one_shot_extended(view, &c);
+                let found = items.iter().any(|x| x.start == pos && x.end == want_end && item_kind(&x.text) == want_ok);
+                if !found {
+                    self.stats.hit("p5_model_verdict_not_confirmed_by_code");
+                    return Ok(());
+                }
+            }
             fail!("P5", format!("pending={}", to_hex(&view[r..view.len().min(r + 8)])),
-                "definition {}: a partial lexer over the buffer {} returned None at {} although the pending item is already determined ({:?} at {}): no continuation can change it",
-                self.def.name, show_bytes(view), r, d, pos);
+                "definition {}: a partial lexer over the buffer {} returned None at {} although the pending item is already determined ({:?} at {}): no continuation can change it (one-shot lexing of the buffer followed by any of {} sample continuations yields that same item)",
+                self.def.name, show_bytes(view), r, d, pos, self.continuations().len());
         }
         Ok(())
     }
